@@ -76,8 +76,8 @@ Lemma C14_delete_ci_l : forall t d d', to_lower d = to_lower d' -> hosts_delete 
 Proof. intros t d d' H. unfold hosts_delete. now rewrite H. Qed.
 
 Lemma C14_match_uses_normalised_l : forall t h h' ps,
-  normalise_host h = normalise_host h' -> hosts_match t h ps = hosts_match t h' ps.
-Proof. intros t h h' ps H. unfold hosts_match. now rewrite H. Qed.
+  normalise_host h = normalise_host h' -> hosts_match_raw t h ps = hosts_match_raw t h' ps.
+Proof. intros t h h' ps H. unfold hosts_match_raw. now rewrite H. Qed.
 
 (* ---------------------------------------------------------------- non-vacuity *)
 Example ex_norm_v6 : normalise_host (bs "[::1]:8080") = bs "::1".
